@@ -8,6 +8,88 @@ import numpy as np
 from harness import common as C
 from harness import em_common as E
 
+# ---- source tie (harness/translate.py -> lean/TaurexModel/Gen/SrcC02.lean, theorems in lean/Props/C02Src.lean)
+_UE = 'taurex/util/emission.py'
+_ME = 'taurex/model/emission.py'
+_PCONST = {'PI': 's', 'PLANCK': 's', 'SPDLIGT': 's', 'KBOLTZ': 's'}
+_KERN = dict(startK='nat', endK='nat', density_offset='nat', sigma='arr', density='arr', path='arr', nlayers='skip',
+             ngrid='skip', layer='nat', tau='arr')
+_CMETH = dict(model='skip', start_layer='nat', end_layer='nat', density_offset='nat', layer='nat', density='arr',
+              tau='arr', path_length='arr')
+_EVAL_ANGLE = dict(module=_ME, cls='EmissionModel', func='evaluate_emission', params=dict(wngrid='skip', return_contrib='skip'),
+                   dialect='np', returns='s', slice=True,
+                   attrs={'self.usingKTables': ('usingKTables', 'bool'), 'self._mu_quads': ('mu_quads', 'elem'),
+                          'self._wi_quads': ('wi_quads', 'elem')},
+                   objlists={'self.contribution_list': dict(n='ncontrib', methods={'contribute': dict(
+                       lean='contribute', params=list(_CMETH), kinds=_CMETH, inout='tau')})})
+SRC_SPECS = [
+    dict(module=_UE, func='_convert_lamb', lean='convert_lamb', callname='_convert_lamb', params=dict(lamb='elem')),
+    dict(module=_UE, func='_black_body_vec', lean='black_body_vec', callname='_black_body_vec',
+         params=dict(wl='elem', temp='s'), consts=_PCONST),
+    # `black_body` is what the models import; the module binds it by `black_body = black_body_numba` (alias followed)
+    dict(module=_UE, func='black_body', lean='black_body', params=dict(lamb='elem', temp='s'), consts=_PCONST),
+    dict(module=_ME, cls='EmissionModel', func='compute_final_flux', lean='emission_final_flux',
+         params=dict(f_total='elem'),
+         attrs={'self._star.spectralEmissionDensity': ('star_sed', 'elem'), 'self._star.radius': ('star_radius', 's'),
+                'self._planet.fullRadius': ('planet_radius', 's')}),
+    dict(module='taurex/model/directimage.py', cls='DirectImageModel', func='compute_final_flux',
+         lean='direct_final_flux', params=dict(f_total='elem'), consts={'PI': 's'},
+         attrs={'self._star.distance': ('star_distance', 's'), 'self._planet.fullRadius': ('planet_radius', 's')}),
+    # the optical-depth kernels (one wavenumber: `wn` lifted; called for their effect on `tau`) and the methods that call them
+    dict(module='taurex/contributions/contribution.py', func='contribute_tau', lean='contribute_tau', params=_KERN,
+         lift=['wn'], dialect='np', result='tau', returns='arr'),
+    dict(module='taurex/contributions/cia.py', func='contribute_cia', lean='contribute_cia', params=_KERN,
+         lift=['wn'], dialect='np', result='tau', returns='arr'),
+    dict(module='taurex/contributions/contribution.py', cls='Contribution', func='contribute',
+         lean='contribution_contribute', params=_CMETH, attrs={'self.sigma_xsec': ('sigma_xsec', 'arr')},
+         dialect='np', result='tau', returns='arr'),
+    dict(module='taurex/contributions/cia.py', cls='CIAContribution', func='contribute', lean='cia_contribute',
+         params=_CMETH, attrs={'self.sigma_xsec': ('sigma_xsec', 'arr'), 'self._total_cia': ('total_cia', 'nat')},
+         dialect='np', result='tau', returns='arr'),
+    # the layer loop: all wavenumbers (whole arrays along the wavenumber axis, length nw), one emission angle
+    dict(module=_ME, cls='EmissionModel', func='evaluate_emission', lean='evaluate_emission',
+         params=dict(wngrid='arr', return_contrib='skip'), lens={'wngrid': 'nw'}, vec_len='nw', consts=_PCONST,
+         dialect='np', returns='arr', returns_index=0, slice=True,
+         attrs={'self.usingKTables': ('usingKTables', 'bool'), 'self.deltaz': ('deltaz', 'arr'),
+                'self.nLayers': ('nLayers', 'nat'), 'self.densityProfile': ('densityProfile', 'arr'),
+                'self.temperatureProfile': ('temperatureProfile', 'arr'), 'self._mu_quads': ('mu_quads', 'elem'),
+                'self._wi_quads': ('wi_quads', 'elem'), 'self._clamp': ('clamp', 's')},
+         vec_externals={'self.evaluate_emission_ktables(wngrid, return_contrib)': 'ktables_I'},
+         objlists={'self.contribution_list': dict(n='ncontrib', methods={'contribute': dict(
+             lean='contribute', params=list(_CMETH), kinds=_CMETH, inout='tau')})}),
+    # the mode switch read by `evaluate_emission` (the global opacity_method setting; 'ktables' is coded 1)
+    dict(module=_ME, cls='EmissionModel', func='usingKTables', lean='usingKTables', params={}, returns='bool', dialect='np',
+         enums={"GlobalCache()['opacity_method']": ('opacity_method', {'ktables': 1})}),
+    # components 1 and 2 of the tuple `evaluate_emission` returns (`_mu`, `_w`), for one emission angle
+    dict(_EVAL_ANGLE, lean='evaluate_emission_mu', returns_index=1,
+         vec_externals={'self.evaluate_emission_ktables(wngrid, return_contrib)': 'ktables_mu'}),
+    dict(_EVAL_ANGLE, lean='evaluate_emission_w', returns_index=2,
+         vec_externals={'self.evaluate_emission_ktables(wngrid, return_contrib)': 'ktables_w'}),
+    # the angle quadrature: one wavenumber (point-wise), whole arrays along the angle axis (length ngauss)
+    dict(module=_ME, cls='EmissionModel', func='path_integral', lean='path_integral',
+         params=dict(wngrid='skip', return_contrib='skip'), vec_len='ngauss', dialect='np', returns='s', returns_index=0,
+         slice=True, attrs={'np.pi': ('npPi', 's')},
+         tuples={'self.evaluate_emission(wngrid, return_contrib)': [('I', 'arr'), ('mu', 'arr'), ('w', 'arr'),
+                                                                    ('tauE', 's')]},
+         externals={'self.compute_final_flux': ('final_flux', 1)}),
+    # the stellar black body (`black_body` in star.py is the function imported from taurex.util.emission)
+    dict(module='taurex/data/stellar/star.py', cls='Star', func='initialize', lean='star_initialize',
+         params=dict(wngrid='elem'), consts=_PCONST, attrs={'self.sed': ('sed', 'elem'), 'self.temperature': ('tstar', 's')},
+         state=['self.sed']),
+    dict(module='taurex/data/stellar/star.py', cls='Star', func='spectralEmissionDensity', lean='star_sed', params={},
+         attrs={'self.sed': ('sed', 'elem')}),
+    # the mapped Gauss-Legendre nodes / weights (one node: element-wise); leggauss itself is an assumption of C02
+    dict(module=_ME, cls='EmissionModel', func='set_num_gauss', lean='set_num_gauss',
+         params=dict(value='skip', coeffs='skip'), dialect='np', slice=True, returns='s',
+         attrs={'self._mu_quads': ('mu_quads', 'elem'), 'self._wi_quads': ('wi_quads', 'elem')},
+         state=['self._mu_quads', 'self._wi_quads'],
+         tuples={'np.polynomial.legendre.leggauss(self._ngauss)': [('x', 'elem'), ('wt', 'elem')]}),
+    dict(module=_ME, cls='EmissionModel', func='set_quadratures', lean='set_quadratures',
+         params=dict(mu='elem', weight='elem', coeffs='skip'), dialect='np', slice=True, returns='s',
+         attrs={'self._mu_quads': ('mu_quads', 'elem'), 'self._wi_quads': ('wi_quads', 'elem')},
+         state=['self._mu_quads', 'self._wi_quads']),
+]
+
 RULE = ('real EmissionModel/DirectImageModel, 1-40 layers, 1-12 wavenumbers, ngauss 1-8, temperature profile in '
         '{isothermal, decreasing, inverted, random, two-level}, 1-3 active gases with in-memory tables whose magnitude '
         'regime is drawn from {zero, thin, mid, saturated, mixed-per-wavenumber}, optional CIA pair; plus a reuse stream '
@@ -15,7 +97,7 @@ RULE = ('real EmissionModel/DirectImageModel, 1-40 layers, 1-12 wavenumbers, nga
         'the new values and a freshly built model); '
         'distinct non-trivial = distinct (kind, nlayers, ngauss, T-profile class, opacity regime, cia, clamp pattern) '
         'with at least one column neither transparent nor saturated')
-ASSUMPTIONS = ['np.polynomial.legendre.leggauss(n): nodes in (-1,1), sum w = 2, sum w x = 0 (checked numerically n=1..16)',
+ASSUMPTIONS = ['np.polynomial.legendre.leggauss(n): nodes in (-1,1), weights > 0, sum w = 2, sum w x = 0 (checked numerically n=1..16; flux_between / eclipse_between use all four)',
                'Planck constants and the literals 10000*1e-6, 1e-6, 3.08567758e16 are passed to the model as floats '
                '(constants read from taurex.util.emission at run time)',
                'sigma_xsec prepared by the contributions (opacity interpolation, mixing-ratio weighting) is an input here; '
@@ -419,3 +501,15 @@ def replay(ctx, case):
     case.pop('small', None)
     case.pop('reuse', None)       # a reuse-stream case replays as a fresh run on the final parameter values
     eval_case(ctx, case)
+
+
+# assumptions of the source tie (lean/Props/C02Src.lean), recorded with the harness assumptions
+ASSUMPTIONS = ASSUMPTIONS + [
+    'source tie: `contrib.contribute(...)` changes nothing but its `tau` argument and is a function of its arguments and '
+    'the contribution; which method runs (Contribution.contribute / CIAContribution.contribute) is Python dispatch, '
+    'instantiated in the theorem (`dispatch`)',
+    'source tie: Python `sum` over the angle axis and `ndarray.min()` are the left folds of the generated text; numpy '
+    'arrays are total functions Nat -> carrier (shapes / broadcasting errors are not modelled)',
+    'source tie: attribute values are instantiated in the theorem statements (self._clamp = 10 from __init__, '
+    'nLayers = len(temperatureProfile), wngrid = the columns\' wavenumbers); `black_body` in star.py / emission.py is '
+    'the function of that name in taurex/util/emission.py (imports are not resolved by the translator)']
